@@ -383,7 +383,10 @@ class IndentationFitter(object):
         `self.fit_range` before the actual fitting.
         """
         model_key = self.fp["model_key"]
-        params_initial = self.fp["params_initial"]
+        # work on a copy: the stored initial parameters must keep the
+        # values they were given (they are part of the fit hash and may
+        # be shared with the user)
+        params_initial = copy.deepcopy(self.fp["params_initial"])
         # modify contact point with gcf_k
         cpi = params_initial["contact_point"].value
         params_initial["contact_point"].set(value=cpi * self.fp["gcf_k"])
